@@ -38,11 +38,15 @@ type graphRec struct {
 
 // freshState builds the analyzer state the way taint.Analyze does, up to and including BuildGraph.
 func freshState(src string, onDemand bool) (*drv.Loaded, *df.AnalyzerState, error) {
+	return freshStateCfg(src, drv.Cfg{OnDemand: onDemand})
+}
+
+func freshStateCfg(src string, c drv.Cfg) (*drv.Loaded, *df.AnalyzerState, error) {
 	l, err := drv.LoadInProcess(src, gen.AnalysisRT)
 	if err != nil {
 		return nil, nil, err
 	}
-	cfg, err := drv.LoadConfig(drv.Cfg{OnDemand: onDemand}.Yaml())
+	cfg, err := drv.LoadConfig(c.Yaml())
 	if err != nil {
 		return nil, nil, err
 	}
